@@ -75,7 +75,7 @@ def gen_case(run_seed: int, tier: str, index: int = 0) -> dict:
             steps.append(["step", r.randrange(8), 0, 0])
         else:
             steps.append([r.choices(EDITS, [5, 3, 6, 6, 7, 4, 4, 1, 2, 2])[0], r.randrange(1 << 16), r.randrange(1 << 16), r.randrange(1 << 16)])
-    return {"property": PROPERTY, "run_seed": run_seed, "n0": n0, "nested": nested, "deps": deps, "perm": perm, "function": r.random() < 0.3, "steps": steps}
+    return {"property": PROPERTY, "run_seed": run_seed, "n0": n0, "nested": nested, "deps": deps, "perm": perm, "function": r.random() < 0.3, "steps": steps, "ref_graph_attrs": Streams(run_seed).rng("ref-graph-attrs").random() < 0.5}
 
 
 class It:
@@ -121,7 +121,13 @@ class Sim:
                     attrs = [ir.AttrGraphs("branches", [ir.Graph([], [], nodes=body_nodes + [ir.Node("", "Relu", [], name=f"b{i}_x")], name=f"case{i}a"), ir.Graph([], [], nodes=more, name=f"case{i}b")])]
                 else:
                     attrs = [ir.AttrGraph("body", ir.Graph([], [], nodes=body_nodes, name=f"body{i}"))]
-            n = ir.Node("", "If" if attrs else "Add", ins, attrs, name=f"n{i}")
+            op_type = "If" if attrs else "Add"
+            if case.get("function") and case.get("ref_graph_attrs") and i % 3 != 1:
+                # in a function body an attribute may refer to a (graph-valued) attribute parameter of the function:
+                # such an attribute holds no graph, the recursive walk has nothing to descend into
+                ref = ir.RefAttr(f"ref{i}", "graph_param" if i % 2 else "graphs_param", ir.AttributeType.GRAPH if i % 2 else ir.AttributeType.GRAPHS)
+                attrs = [ref] + attrs if i % 4 < 2 else attrs + [ref]
+            n = ir.Node("", op_type, ins, attrs, name=f"n{i}")
             made.append(n)
         order = [made[p] for p in case["perm"]] if len(case["perm"]) == n0 else made
         self.g = ir.Graph([], [], nodes=order, name="G", opset_imports={"": 20})
@@ -466,6 +472,8 @@ class Sim:
             # nested nodes whose owner is untouched: exactly once each
             for owner in untouched:
                 for attr in owner.attributes.values():
+                    if attr.is_ref():
+                        continue
                     bodies = [attr.value] if attr.type == ir.AttributeType.GRAPH else (list(attr.value) if attr.type == ir.AttributeType.GRAPHS else [])
                     for body in bodies:
                         members = list(body)
@@ -532,7 +540,7 @@ class Sim:
         for it in self.its:
             if it.done:
                 continue
-            nested_total = sum(len(list(a.value)) for n in self.nodes for a in n.attributes.values() if a.type == ir.AttributeType.GRAPH) + sum(len(list(g_)) for n in self.nodes for a in n.attributes.values() if a.type == ir.AttributeType.GRAPHS for g_ in a.value)
+            nested_total = sum(len(list(a.value)) for n in self.nodes for a in n.attributes.values() if a.type == ir.AttributeType.GRAPH and not a.is_ref()) + sum(len(list(g_)) for n in self.nodes for a in n.attributes.values() if a.type == ir.AttributeType.GRAPHS and not a.is_ref() for g_ in a.value)
             cap = self.ever_inserted + nested_total * 4 + 2
             k = 0
             while not it.done and k <= cap:
